@@ -211,7 +211,8 @@ def coq_multi(tag, imports, defs, blocks, timeout=900):
 FC_CHECKS = ["fc_agree", "fc_modelled", "fc_in_guard", "fc_oracle", "fc_theorem", "fc_oracle_raw", "fc_in_theorem_guard"]
 
 
-def evaluate(ck, models, res, tag="c03b"):
+def evaluate(ck, models, res, tag=None):
+    tag = tag or f"c03b_{os.getpid()}"   # concurrent runs (e.g. from the merged C03 check) must not share case files
     """All Coq-side verdicts in one pass per group of models."""
     mids = [i for i, m in enumerate(res["models"]) if m["universe"] and m.get("pns") is not None]
     parts = chunks(mids, 16)
@@ -288,7 +289,9 @@ def F(name, kind, tp=None, **kw):
 
 def witness_models():
     """(finding class, description, recipe): inputs excluded by one guard clause of
-    C03b_eventgen_matches_metadata; the oracle must still fail on them while the finding is open."""
+    C03b_eventgen_matches_metadata; the oracle must still fail on them while the finding is open.
+    Classes starting with "fixed:" are witnesses of REPAIRED findings: they must now be inside the
+    guard and satisfy the oracle (a regression is reported as a violation)."""
     out = []
     # 1. the metadata cache is keyed by the class alone: Child (no namespace of its own) first
     #    rendered inside urn:a keeps urn:a for its fields when it appears inside urn:b
@@ -308,12 +311,12 @@ def witness_models():
         {"name": "R", "meta": {"namespace": "urn:r"}, "base": None, "fields": [F("a", "Element", ("class", "A"), optional=True)]},
         {"name": "A", "meta": {"namespace": "urn:a"}, "base": None, "fields": [F("c", "Element", ("class", "Child"), optional=True)]},
         {"name": "Child", "meta": {}, "base": None, "fields": [F("x", "Element", ("prim", "str"), optional=True)]}]}
-    out.append(("inherits-element-namespace", d, {"__cls__": "R", "fields": {"a": {"__cls__": "A", "fields": {"c": child}}}}))
+    out.append(("fixed:inherits-class-namespace", d, {"__cls__": "R", "fields": {"a": {"__cls__": "A", "fields": {"c": child}}}}))
     # 2. empty list in a nillable list-of-token-lists field: one xsi:nil element instead of none
     d = {"module_ns": None, "enums": [], "root": "R", "slices": ["F1"], "classes": [
         {"name": "R", "meta": {}, "base": None, "fields": [
             F("t", "Element", ("prim", "int"), list=True, tokens=True, nillable=True, optional=False)]}]}
-    out.append(("nillable-token-lists-empty", d, {"__cls__": "R", "fields": {"t": []}}))
+    out.append(("fixed:nillable-token-lists-empty", d, {"__cls__": "R", "fields": {"t": []}}))
     return out
 
 
@@ -365,6 +368,11 @@ def run(ck: Check):
     out_guard = set(v["fc_in_guard"])
     for mi, (cls, desc, rec) in enumerate(wit):
         if res["models"][mi]["unsupported"]:
+            continue
+        if cls.startswith("fixed:"):
+            if (mi, 0) in raw_bad or (mi, 0) in out_guard:
+                ck.failure("regression-" + cls[6:], "the witness of a repaired finding fails again (events differ from the metadata reading or it left the guard)",
+                           describe(models, res, mi, 0, f"c03b_wit_{mi}", "spec"))
             continue
         if (mi, 0) in raw_bad and (mi, 0) in out_guard:
             ck.failure(cls, "witness replayed: implementation events differ from the metadata reading",
@@ -445,7 +453,7 @@ def write_witness_file(path=None):
            "From XV Require Import Base.Str Base.Eqb Model.Bind Model.EventGen Model.EventGenCorr Spec.MetaSpec Model.Builder.",
            "Import ListNotations.", ""]
     for (cls, dd, _r), m, rm in zip(wit, models, res["models"]):
-        name = "w_" + cls.replace("-", "_")
+        name = "w_" + cls.replace("fixed:", "").replace("-", "_")
         c = rm["cases"][0]
         assert rm["universe"] and c["outcome"], (cls, rm)
         out.append(f"(* {cls} *)")
